@@ -132,6 +132,17 @@ func (c limCfg) build(reg *RecRegistry) *limInst {
 			top = limit.NewTracedLimit(in, limit.NoopLimitLogger{})
 		}
 	}
+	if c.ctor == "default" {
+		// the NewDefault… constructors choose the bounds: read what they configured rather than
+		// trusting the constants mirrored in the grid (kept as the fallback)
+		c.initial = in.EstimatedLimit()
+		if v, ok := mc.FieldInt(in, "maxLimit"); ok && v > 0 {
+			c.max = int(v)
+		}
+		if v, ok := mc.FieldInt(in, "minLimit"); ok && v > 0 {
+			c.min = int(v)
+		}
+	}
 	return &limInst{cfg: c, top: top, inner: in, reg: reg}
 }
 
